@@ -1846,13 +1846,37 @@ def base_world(ctx, state=None, kind="ndarray", cplx=True, rows=(1, None), cols=
     return W
 
 
-def run_method(W, key, env, qual=None):
-    fn = W.table[key]
-    e = dict(W.state)
-    e.update(env)
-    ev = OP4Eval(fn, W, env=e, qual=qual or getattr(fn, "_vqual", key))
+def bind_positional(fn, values, ev=None):
+    """{parameter name: value} for the values given in signature order (self / cls skipped): the rules name their own symbols, whatever the
+    parameters are called; parameters left over get their defaults"""
+    a = fn.args
+    params = [x.arg for x in a.posonlyargs + a.args]
+    if params and params[0] in ("self", "cls"):
+        params = params[1:]
+    vals = list(values)
+    if len(vals) > len(params):
+        raise Unsupported(f"{fn.name}: {len(params)} parameters for {len(vals)} values")
+    env = dict(zip(params, vals))
+    dflt = dict(zip(params[::-1], (a.defaults or [])[::-1]))
+    for p_ in params[len(vals):]:
+        if p_ in dflt and ev is not None:
+            env[p_] = ev.ev(dflt[p_])
+    return env
+
+
+def run_func(W, fn, values, qual=None, state=True):
+    """evaluate a function on the given argument values (positional, in signature order)"""
+    e = dict(W.state) if state else {}
+    probe = OP4Eval(None, W, env=dict(e))
+    e.update(bind_positional(fn, values, probe))
+    ev = OP4Eval(fn, W, env=e, qual=qual or getattr(fn, "_vqual", fn.name))
     ev.run(fn.body)
     return ev
+
+
+def run_method(W, key, env, qual=None):
+    """`env`: the argument values in signature order (a dict: only the order of its values matters)"""
+    return run_func(W, W.table[key], list(env.values()), qual)
 
 
 def explore(make, run, limit=24):
@@ -1899,10 +1923,8 @@ def reader_state(ctx, state, bit64=False):
     W.pinned["self._endian"] = F.sym("self._endian")
     W.pinned["self._fileh"] = FILE
     fn = W.table["self._op4open_read"]
-    env = dict(state)
-    env["filename"] = F.sym("filename")
-    ev = OP4Eval(fn, W, env=env, qual="OP4._op4open_read")
-    ev.run(fn.body)
+    W.state = dict(state)
+    ev = run_func(W, fn, [F.sym("filename")], "OP4._op4open_read")
     out = {k: v for k, v in ev.env.items() if k.startswith("self.")}
     out["self._ascii"], out["self._bit64"], out["self._endian"] = FALSE, boolv(bit64), F.sym("self._endian")
     return out
